@@ -323,6 +323,61 @@ impl Pos {
         false
     }
 
+    /// Does the piece standing on `from` (of the side not to move) attack `sq`?
+    pub fn attacked_by_piece_at(&self, sq: u8, from: u8) -> bool {
+        let pc = self.board[from as usize];
+        if pc == EMPTY {
+            return false;
+        }
+        let by = if pc & BLACK_BIT != 0 { 1 } else { 0 };
+        // direct geometry: can `pc` on `from` reach `sq` given the real occupancy?
+        let kind = pc & 7;
+        let (ff, fr, tf, tr) = ((from % 8) as i8, (from / 8) as i8, (sq % 8) as i8, (sq / 8) as i8);
+        let (df, dr) = (tf - ff, tr - fr);
+        match kind {
+            PAWN => {
+                let dir = if by == 0 { 1 } else { -1 };
+                dr == dir && df.abs() == 1
+            }
+            KNIGHT => (df.abs() == 1 && dr.abs() == 2) || (df.abs() == 2 && dr.abs() == 1),
+            KING => df.abs() <= 1 && dr.abs() <= 1 && (df != 0 || dr != 0),
+            _ => {
+                let straight = df == 0 || dr == 0;
+                let diag = df.abs() == dr.abs();
+                if (df == 0 && dr == 0) || !(straight || diag) {
+                    return false;
+                }
+                if straight && !(kind == ROOK || kind == QUEEN) {
+                    return false;
+                }
+                if diag && !straight && !(kind == BISHOP || kind == QUEEN) {
+                    return false;
+                }
+                let (sf, sr) = (df.signum(), dr.signum());
+                let (mut f, mut r) = (ff + sf, fr + sr);
+                while (f, r) != (tf, tr) {
+                    if self.board[(r * 8 + f) as usize] != EMPTY {
+                        return false;
+                    }
+                    f += sf;
+                    r += sr;
+                }
+                true
+            }
+        }
+    }
+
+    /// Number of pieces of the side not to move that attack the king of the side to move.
+    pub fn count_checkers(&self) -> usize {
+        let Some(k) = self.king_sq(self.side) else { return 0 };
+        (0..64u8)
+            .filter(|&s| {
+                let pc = self.board[s as usize];
+                pc != EMPTY && (if pc & BLACK_BIT != 0 { 1 } else { 0 }) != self.side && self.attacked_by_piece_at(k, s)
+            })
+            .count()
+    }
+
     pub fn in_check(&self) -> bool {
         match self.king_sq(self.side) {
             Some(k) => self.attacked(k, 1 - self.side),
